@@ -18,19 +18,28 @@ func TestVF_Debug(t *testing.T) {
 	}
 	synctest.Test(t, func(t *testing.T) {
 		vfDumpWire = true
-		res := vfNewResult("DBG", "debug")
-		var v vfVariant
-		for _, x := range vfC02Variants() {
-			if x.Name == os.Getenv("VERIF_DEBUG") {
-				v = x
+		pki := vfGetPKI()
+		n := vfNewNet()
+		vfDumpWire = false
+		for _, cv := range []string{"12", "13", "dual"} {
+			for _, sv := range []string{"12", "13", "dual"} {
+				for _, hv := range []bool{true, false} {
+					n = vfNewNet()
+					co := vfCO(append(vfVerOpts(cv), WithRootCAs(pki.Pool), WithServerName(vfServerName))...)
+					so := vfSO(append(vfVerOpts(sv), WithCertificates(pki.Leaf("ecdsa", "server")))...)
+					if !hv {
+						so = append(so, WithInsecureSkipVerifyHello(true))
+					}
+					p, err := vfNewPair(n, co, so)
+					if err != nil {
+						t.Fatal(err)
+					}
+					ce, se := p.Handshake(30 * time.Second)
+					fmt.Printf("MATRIX client=%s server=%s hv=%v: %v / %v (datagrams %d)\n", cv, sv, hv, vfErrClass(ce), vfErrClass(se), len(n.Emissions("")))
+					p.Close()
+					synctest.Wait()
+				}
 			}
-		}
-		var cut int
-		fmt.Sscanf(os.Getenv("VERIF_DEBUG_CUT"), "%d", &cut)
-		c := vfC17Case{V: v, Target: os.Getenv("VERIF_DEBUG_TARGET"), Cut: cut, Interval: time.Second, Backoff: true, Mode: os.Getenv("VERIF_DEBUG_MODE")}
-		vfC17Silence(res, c)
-		for _, vi := range res.Violations {
-			fmt.Println("VIOL", vi.Signature, vi.What[:min(len(vi.What), 300)])
 		}
 	})
 }
